@@ -85,7 +85,10 @@ pub fn silence_panics() {
 pub fn last_panic_in_code_under_test() -> Option<(String, u32, String)> {
     let g = LAST_PANIC.lock().ok()?;
     let (file, line, msg) = g.clone()?;
-    if file.starts_with("/repo/") && !msg.starts_with("harness:") {
+    // the harness's own files are reported relative to its manifest ("src/..."); a path dependency is reported
+    // with its absolute path (/repo/src/..., or a scratch worktree when a change is screened in isolation)
+    let dependency = file.starts_with('/') && !file.starts_with("/rustc/") && !file.contains("/.cargo/registry/") && !file.contains("/rustlib/");
+    if dependency && !msg.starts_with("harness:") {
         Some((file, line, msg))
     } else {
         None
@@ -133,6 +136,15 @@ impl Report {
         if n < 20 {
             self.violations.lock().unwrap().push(v);
         }
+        if n + 1 >= SATURATION {
+            SATURATED.store(true, Ordering::Relaxed);
+        }
+    }
+    pub fn count_violation(&self) {
+        let n = self.violations_total.fetch_add(1, Ordering::Relaxed);
+        if n + 1 >= SATURATION {
+            SATURATED.store(true, Ordering::Relaxed);
+        }
     }
     /// An advisory observation drifted (never affects the exit code).
     pub fn advisory(&self, v: Value) {
@@ -170,6 +182,7 @@ impl Report {
             "evaluations": self.evaluations.load(Ordering::Relaxed),
             "distinct_nontrivial": self.distinct.load(Ordering::Relaxed),
             "violations_total": self.violations_total.load(Ordering::Relaxed),
+            "stopped_early": saturated(),
             "violations": *self.violations.lock().unwrap(),
             "advisories_total": self.advisories_total.load(Ordering::Relaxed),
             "advisories": *self.advisories.lock().unwrap(),
@@ -188,6 +201,14 @@ pub fn threads() -> usize {
 }
 
 /// Run `f(chunk_index)` for chunk indices 0..n on all cores (dynamic scheduling).
+/// Once a replay has counted this many violations its parallel sweeps stop handing out work: the verdict is
+/// settled, and code that is wrong on most inputs would otherwise make the run very slow.
+pub const SATURATION: u64 = 1000;
+pub static SATURATED: std::sync::atomic::AtomicBool = std::sync::atomic::AtomicBool::new(false);
+pub fn saturated() -> bool {
+    SATURATED.load(Ordering::Relaxed)
+}
+
 pub fn par_chunks<F: Fn(usize) + Sync>(n: usize, f: F) {
     let next = AtomicU64::new(0);
     let t = threads().min(n.max(1));
@@ -195,7 +216,7 @@ pub fn par_chunks<F: Fn(usize) + Sync>(n: usize, f: F) {
         for _ in 0..t {
             s.spawn(|| loop {
                 let i = next.fetch_add(1, Ordering::Relaxed) as usize;
-                if i >= n {
+                if i >= n || saturated() {
                     break;
                 }
                 f(i);
